@@ -110,7 +110,7 @@ class Abort(Exception):
     pass
 
 
-def interp(hp, prog, events, last=None):
+def interp(hp, prog, events, last=None, scopes=()):
     """run the program tree against a real HyperParameters object"""
     for st in prog:
         if st[0] == "decl":
@@ -120,6 +120,14 @@ def interp(hp, prog, events, last=None):
                 events.append(("err", "sameAsParent" if "same" in str(e) else "ValueError", hp._get_name(st[1]["name"])))
                 raise Abort()
             events.append(("ret", hp._get_name(st[1]["name"]), v))
+            # the lookup rule of C13, decided on the implementation's own state: under a scope whose condition does
+            # not hold (parent without a value, or with another value) a declaration returns None
+            bad = [(pn, vs) for pn, vs in scopes if pn not in hp.values or hp.values[pn] not in vs]
+            if bad and v is not None:
+                raise Violation("C13", f"declaring {hp._get_name(st[1]['name'])} under conditional scope {bad[0][0]} in {list(bad[0][1])} returned {v!r} although "
+                                       f"{bad[0][0]} = {hp.values.get(bad[0][0], '<no value>')!r}", {"tag": "inactive-returns-value"})
+            if not bad and v is None:
+                raise Violation("C13", f"declaring {hp._get_name(st[1]['name'])} returned None although every enclosing condition holds", {"tag": "active-returns-none"})
             last = v
         elif st[0] == "get":
             qn = hp._get_name(st[1])
@@ -132,7 +140,7 @@ def interp(hp, prog, events, last=None):
                 events.append(("err", "unknown", qn))
         elif st[0] == "ns":
             with hp.name_scope(st[1]):
-                interp(hp, st[2], events, None)
+                interp(hp, st[2], events, None, scopes)
         else:
             _, parent, vals, lazy, body = st
             try:
@@ -143,7 +151,7 @@ def interp(hp, prog, events, last=None):
                 raise Abort()
             try:
                 if (not lazy) or (last in vals):
-                    interp(hp, body, events, None)
+                    interp(hp, body, events, None, tuple(scopes) + ((hp._get_name(parent), list(vals)),))
             finally:
                 cm.__exit__(None, None, None)
     return last
@@ -234,10 +242,6 @@ def case_build(R, res, lines, expect, tags):
         interp(hp, prog, events)
     except Abort:
         tags["aborted-build"] += 1
-    # monitors: the lookup rules of C13 on every declaration event
-    for e in events:
-        if e[0] == "ret" and e[2] is None:
-            pass
     vals, space, act, ina = state_strs(hp, C)
     evs = ";".join((f"{e[1]}={C.code(e[2]) if e[2] is not None else 'None'}" if e[0] == "ret" else f"ERR:{e[1]}({e[2]})") for e in events)
     lines.append(dict(suite="programs", op="build", prog=to_model_prog(prog, C), space=init_space, values=init_vals))
